@@ -34,10 +34,17 @@ def one(name):
         lines = [l for l in r.stdout.splitlines() if l.startswith(("VIOLATION", "  what", "OK", "CHECKER", "KNOWN"))]
         what = next((l.strip()[:150] for l in lines if l.startswith("  what")), "")
         caught = r.returncode == 1 and any(l.startswith("VIOLATION") for l in lines)
+        try:
+            ev = json.load(open(os.path.join(scratch, "out", "evidence", "%s.json" % pid)))
+            nref = len(ev["coverage"].get("refuted", []))
+            nund = len(ev["coverage"].get("undecided", []))
+            what = "[D:%d refuted, %d undecided] %s" % (nref, nund, what)
+        except Exception:
+            pass
         nc = os.path.join(d, "NOT_COUNTED")
         if os.path.exists(nc):
             # deliberately not a violation under the property as stated: the check must stay quiet on it
-            return name, pid, ("caught" if not caught and r.returncode == 0 else "ALARM-ON-NOT-COUNTED rc=%d" % r.returncode), ["(not counted: %s)" % open(nc).read().strip()[:110]]
+            return name, pid, ("quiet-as-expected" if not caught and r.returncode == 0 else "ALARM-ON-NOT-COUNTED rc=%d" % r.returncode), ["(not counted: %s)" % open(nc).read().strip()[:110]]
         return name, pid, ("caught" if caught else "NOT-CAUGHT rc=%d" % r.returncode), [what]
     finally:
         shutil.rmtree(scratch, ignore_errors=True)
@@ -56,7 +63,7 @@ def main():
     with cf.ThreadPoolExecutor(jobs) as ex:
         for name, pid, status, info in ex.map(one, names):
             print("%-22s %s %-24s %s" % (name, pid, status, info[0] if info else ""), flush=True)
-            if status != "caught":
+            if status not in ("caught", "quiet-as-expected"):
                 bad += 1
     print("seed regression: %d seeds, %d not caught / not applicable" % (len(names), bad))
     sys.exit(1 if bad else 0)
